@@ -24,6 +24,18 @@ Theorem all_error_path_names_bound :
 Proof. exact all_error_path_names_bound_l. Qed.
 Print Assumptions all_error_path_names_bound.
 
+(* Every `raise excepting.X(...)` of those modules calls X.__init__ with a signature it accepts (generated
+   tables [raises], [ctor_params] from ioflo/base/excepting.py): not too many positionals, only keywords
+   that are parameters, none given twice -- OR the site is exempt with its guard in force.  The one
+   exemption ([exempt_sites], generated): the "Invalid schedule" raise of Rearer._resolve
+   (ResolveError(msg=...), a latent defect: fixes/C14-raise-keyword.patch, not a property fix) is
+   unreachable from any script while Builder.buildRear keeps the test `schedule not in ['aux']` + ParseError;
+   the translator extracts that guard from the AST on every run, and without it the exemption is void. *)
+Theorem all_raise_sites_match_constructor :
+  forallb (fun s => sig_ok (ctor_params (r_cls s)) s || exempt_b exempt_sites s) raises = true.
+Proof. exact all_raise_sites_match_constructor_l. Qed.
+Print Assumptions all_raise_sites_match_constructor.
+
 (* Frame.resolveOverLinks as fixed (visited set): for EVERY frame registry g and starting frame,
    fuel = number of registered frames suffices -- the walk terminates. *)
 Theorem over_resolution_terminates : forall g self fuel,
